@@ -34,7 +34,86 @@ func checkC12(c *Ctx) {
 	c12Envelope(c)
 	c12NegateKeepsName(c)
 	c12TreeShape(c)
+	c12NodeIndex(c)
 	_ = p
+}
+
+// ---- J9: focus nodes are taken from the @ids index (the generated code looks nodes up there), so the index must hold
+// exactly the nodes of the flattened input document: every entry is an element of the document's node list stored under
+// its own @id. An entry invented by the indexer (a stub for a dangling link, a copy) becomes a focus node that is not a
+// node of the input graph.
+func c12NodeIndex(c *Ctx) {
+	r, p := c.R, c.P
+	r.Rule("C12.J9", "the @ids index holds exactly the nodes of the input document, each under its own @id", 1)
+	pk := p.Pkg("internal/validator")
+	if pk == nil {
+		return
+	}
+	// the indexer: the function whose returned map literal has the key "@ids"
+	for _, f := range pk.Syntax {
+		for _, d := range f.Decls {
+			fd, ok := d.(*ast.FuncDecl)
+			if !ok || fd.Body == nil {
+				continue
+			}
+			has := false
+			ast.Inspect(fd.Body, func(n ast.Node) bool {
+				if kv, ok := n.(*ast.KeyValueExpr); ok {
+					if s, ok := constString(pk.TypesInfo, kv.Key); ok && s == "@ids" {
+						has = true
+					}
+				}
+				return true
+			})
+			if !has {
+				continue
+			}
+			key := relOf(pk) + "." + fd.Name.Name
+			type st struct {
+				target, k, v *Sym
+				loops        []*Sym
+				pos          token.Pos
+			}
+			var stores []st
+			var ids *Sym
+			proto := &symWalker{Inline: samePkgInline(pk)}
+			proto.OnStore = func(w *symWalker, at ast.Node, target *Sym, k *Sym, v *Sym) {
+				if ks, ok := k.ConstString(); ok && ks == "@ids" {
+					ids = v
+					return
+				}
+				stores = append(stores, st{target, k, v, w.Loops(), at.Pos()})
+			}
+			p.SymWalk(pk, fd, proto, nil)
+			if ids == nil {
+				r.Unknown("C12.J9", key+"#index", p.Pos(fd.Pos()), "the value stored under @ids was not found")
+				continue
+			}
+			n := 0
+			ord := ordinal{}
+			for _, s := range stores {
+				if s.target != ids {
+					continue
+				}
+				n++
+				okv := s.v != nil && s.v.K == symElem && s.k != nil && s.k.K == symIndex && s.k.X == s.v
+				if okv {
+					kk, _ := s.k.Y.ConstString()
+					okv = kk == "@id"
+				}
+				inLoop := false
+				for _, l := range s.loops {
+					if s.v != nil && s.v.X == l {
+						inLoop = true
+					}
+				}
+				r.Check(okv && inLoop, "C12.J9", ord.next(key+"#entry"), p.Pos(s.pos), "an element of the document's node list, stored under its own @id", "the node index receives "+s.v.String()+" under "+s.k.String()+", which is not `a node of the flattened document under its own @id`: the generated code treats every entry as a graph node, so results can name a focus node that the input graph does not contain")
+			}
+			if n == 0 {
+				r.Unknown("C12.J9", key+"#entries", p.Pos(fd.Pos()), "no store into the @ids index was recognised")
+			}
+		}
+	}
 }
 
 // ---- J8: ids are assigned by walking the result tree and writing @id into each node map. That is only injective when
